@@ -166,6 +166,24 @@ pub unsafe fn select_in_word_pdep(x: u64, k: u32) -> u32 {
     scattered.ilog2()
 }
 
+/// Verification hook: PDEP select, or `None` when the host has no BMI2.
+///
+/// Compiled only under `--cfg succinctly_verif`; not part of the public API.
+#[cfg(all(
+    succinctly_verif,
+    target_arch = "x86_64",
+    any(feature = "std", test)
+))]
+#[doc(hidden)]
+pub fn verif_select_in_word_pdep(x: u64, k: u32) -> Option<u32> {
+    if is_x86_feature_detected!("bmi2") {
+        // SAFETY: BMI2 availability checked on the line above.
+        Some(unsafe { select_in_word_pdep(x, k) })
+    } else {
+        None
+    }
+}
+
 /// Check if the CPU has fast BMI2 support.
 ///
 /// Returns `true` only if:
